@@ -287,8 +287,9 @@ def replay(case, M):
 def jobs(tier):
     th = tier == "thorough"
     J = []
-    A = [{"DOY": (100, 101)}, {"DOY": (364, 366)}]
     for mode in (C.MODES4 if th else ["gregorian"]):
+        last = {"gregorian": 366, "360day": 360, "365day": 365, "366day": 366}[mode]
+        A = [{"DOY": (100, 101)}, {"DOY": (last - 2, last)}]
         for fmt in (3, 4, 1):
             for reps in (1, 2, 3, None):
                 if fmt == 1 and reps == 1:
@@ -310,7 +311,7 @@ def jobs(tier):
                     continue
                 for iv in ("PT36H", "P1M") if fmt != 1 else ("PT36H",):
                     J.append(("job_text", dict(mode=mode, fmt=fmt, reps=reps, iv=iv, rep="cal", ranges={"M": (1, 3), "y0": (0, 8)})))
-                    J.append(("job_text", dict(mode=mode, fmt=fmt, reps=reps, iv=iv, rep="ord", ranges={"DOY": (360, 366), "y0": (0, 8)})))
+                    J.append(("job_text", dict(mode=mode, fmt=fmt, reps=reps, iv=iv, rep="ord", ranges={"DOY": (last - 6, last), "y0": (0, 8)})))
     return J
 
 
